@@ -26,10 +26,10 @@ static std::string body(const pg::ProgCase& c) {
 int main(int argc, char** argv) {
 	auto minimizer = [](const pg::ProgCase& c) { return pg::minimize(c, [](const pg::ProgCase& t) { return !compareEngines(t).empty(); }); };
 	// shape weights: natural, saturated, branchy, store-L3, sparse, fp-heavy, rcp-noop
-	vh::registerCheck<pg::ProgCase>("jit_vs_interp", [] { return pg::genProgCase({6, 3, 3, 2, 2, 2, 1, 1}, 85); }, body, true, minimizer);
-	vh::registerCheck<pg::ProgCase>("jit_light", [] { return pg::genProgCase({6, 3, 3, 2, 2, 2, 1, 1}, 0); }, body, true, minimizer);
+	vh::registerCheck<pg::ProgCase>("jit_vs_interp", [] { return pg::genProgCase({6, 3, 3, 2, 2, 2, 1, 1, 2}, 85); }, body, true, minimizer);
+	vh::registerCheck<pg::ProgCase>("jit_light", [] { return pg::genProgCase({6, 3, 3, 2, 2, 2, 1, 1, 2}, 0); }, body, true, minimizer);
 	vh::registerCheck<pg::ProgCase>("rcp_noop", [] { return pg::genProgCase({0, 0, 0, 0, 0, 0, 1}, 90); }, body, true, minimizer);
-	vh::registerCheck<pg::ProgCase>("branchy", [] { return pg::genProgCase({0, 0, 1, 0, 0, 0, 0}, 90); }, body, true, minimizer);
+	vh::registerCheck<pg::ProgCase>("branchy", [] { return pg::genProgCase({0, 0, 2, 0, 0, 0, 0, 0, 1}, 90); }, body, true, minimizer);
 	vh::registerCheck<pg::ProgCase>("adversarial", [] { return pg::genProgCase({0, 4, 1, 3, 0, 2, 0, 2}, 70); }, body, true, minimizer);
 	// writes seed inputs for the libFuzzer target (fuzz/corpus/jit): one program per shape and version
 	vh::Sub d; d.name = "dump_corpus";
